@@ -792,7 +792,7 @@ class GAM(Core, MetaTermMixin):
 
             # need to recompute the number of singular values
             min_n_m = np.min([m, n, mask.sum()])
-            Dinv = np.zeros((m, min_n_m))
+            Dinv = np.zeros((m, m))
 
             # SVD
             U, d, Vt = np.linalg.svd(np.vstack([R, E]))
@@ -801,7 +801,7 @@ class GAM(Core, MetaTermMixin):
             # svd_mask = d <= (d.max() * np.sqrt(EPS))
 
             np.fill_diagonal(Dinv, d**-1)  # invert the singular values
-            U1 = U[:min_n_m, :min_n_m]  # keep only top corner of U
+            U1 = U[:min_n_m, :m]  # rows of U belonging to R, all m singular vectors
 
             # update coefficients
             B = Vt.T.dot(Dinv).dot(U1.T).dot(Q.T)
